@@ -4,6 +4,7 @@ from __future__ import annotations
 
 import io
 import json
+import re
 import logging
 import os
 import shutil
@@ -50,6 +51,8 @@ STDERRS = [
     "Error: could not evaluate /data/q1\n\tat org.javarosa.Foo.bar(Foo.java:12)\n",
     "Error: Invalid or corrupt input /data/household-size\njava.lang.RuntimeException: bad /data/q1\n\tat x.y(Z.java:3)\n",
     "Error: /data/q1 depends on itself\n",
+    # names of other alphabets, and the tail of a stack trace
+    "Cycle detected at /data/größe and /data/日本/名前.\n\tat x.y(Z.java:3)\nCaused by: z\n\t... 12 more\n",
 ]
 
 
@@ -109,7 +112,9 @@ class CleanerOp(Op):
                 ".java:", "Foo.java:3", "java.lang.RuntimeException: ", "java.lang.NullPointerException", "org.javarosa.xpath.XPathUnhandledException: ",
                 "org.javarosa.xform.parse.XFormParseException", "\njava.lang.RuntimeException: org.javarosa.xpath.XPathUnhandledException: ",
                 "\njava.lang.RuntimeException: java.lang.NullPointerException", "\norg.javarosa.xpath.XPathUnhandledException: org.javarosa.xform.parse.XFormParseException: ",
-                "\njava.lang.RuntimeException: org.javarosa.xform.parse.XFormParseException", "\njava.lang.NullPointerExceptionorg.javarosa.xform.parse.XFormParseException", "/", "//", "-", "_", "/A/b", "/9/8", "\r\n", "same\nsame", "é", ":", "${q}", "/data/hh-size/p_h", "\r", " \n", "Error: ", "Error: Unable to access jarfile", "Error: Unable", "\nError: ", "jarfile"]
+                "\njava.lang.RuntimeException: org.javarosa.xform.parse.XFormParseException", "\njava.lang.NullPointerExceptionorg.javarosa.xform.parse.XFormParseException", "/", "//", "-", "_", "/A/b", "/9/8", "\r\n", "same\nsame", "é", ":", "${q}", "/data/hh-size/p_h", "\r", " \n", "Error: ", "Error: Unable to access jarfile", "Error: Unable", "\nError: ", "jarfile",
+                "/data/größe", "/data/日本/名前", "/d/ñ", "/data/a.b", "/data/q1.", ".", "ß", "·", "/data/K/ſ", "/a/‿b", "/a/b\u0301", "/a/×", "/a/÷b", "\t... 12 more", "... 3 more", "... more", "\n\t... 1 more\n",
+                "Caused by: x", " ... 2 more ", "... ١٢ more"]
         cases = []
         for i in range(n):
             s = rng.choice(STDERRS) if i < len(STDERRS) * 2 else "".join(rng.choice(frag) for _ in range(rng.randint(1, 9)))
@@ -332,6 +337,10 @@ def oracle(seed, tier, searching=False):
                     fails.append({"what": f"a Java exception class name survives at the start of a diagnostic line: {noisy[0][:120]!r}", "input": {"stderr": err}, "observed": msg})
                 if "/data/q1" in err and "${q1}" not in msg and "jarfile" not in err:
                     fails.append({"what": "instance path not shown as ${name}", "input": {"stderr": err}, "observed": msg})
+                if "/data/größe" in err and ("${größe}" not in msg or "${名前}" not in msg):
+                    fails.append({"what": "instance path of non-ASCII names not shown as ${name}", "input": {"stderr": err}, "observed": msg})
+                if re.search(r"(?m)^\s*\.\.\. \d+ more\s*$", msg):
+                    fails.append({"what": "the '... N more' tail of a Java stack trace survives in the validation error", "input": {"stderr": err}, "observed": msg})
                 if "/data/household-size" in err and "${household-size}" not in msg:
                     fails.append({"what": "instance path with a hyphen not shown as ${name}", "input": {"stderr": err}, "observed": msg})
             except PyXFormError:
